@@ -197,6 +197,7 @@ type expect struct {
 	Q     query
 	Slot  int    // enumerated signer slot asked about, -1 otherwise
 	Sit   string // situation class (for the coverage statistics)
+	Cls   string // coarse outcome class
 	Desc  string
 }
 
@@ -427,6 +428,7 @@ func (w *world) build(c chain) (*built, error) {
 			e.Desc += " called by " + b.Frames[e.Frame-1].Kind
 		}
 		e.Desc += fmt.Sprintf(" at depth %d", e.Frame)
+		e.Cls = fmt.Sprintf("vm:in=%s:depth=%d:", f.Kind, min(e.Frame, 2))
 		e.Sit = fmt.Sprintf("%s<%s@%d rs=%v q=%s", f.Kind, callerKind(b, e.Frame), min(e.Frame, 2), f.Eff.Has(callflag.ReadStates), strings.TrimLeft(e.Q.Label, "s0123456789"))
 	}
 	return b, nil
@@ -521,6 +523,13 @@ type mismatch struct {
 type evalStats struct {
 	Evals, True, False, Undecided int
 	Contexts                      map[string]struct{}
+	Classes                       map[string]struct{}
+}
+
+func (st *evalStats) class(c string) {
+	if st.Classes != nil {
+		st.Classes[c] = struct{}{}
+	}
 }
 
 func resName(r int) string { return [...]string{"false", "true", "error"}[r] }
@@ -573,6 +582,7 @@ func judge(b *built, ref []signer, ncfg int, trace []obs, state vmstate.State, f
 		if o.Res == 2 {
 			if !f.Eff.Has(callflag.ReadStates) {
 				st.Undecided++ // the property is silent about checks without ReadStates that need a manifest
+				st.class(e.Cls + "error-without-ReadStates")
 				continue
 			}
 			out = append(out, mismatch{What: "check-failed", Frame: e.Frame, Query: e.Q.Label, Slot: slot, Got: "error", Want: fmt.Sprint(want), Where: desc, Detail: o.Err})
@@ -580,8 +590,10 @@ func judge(b *built, ref []signer, ncfg int, trace []obs, state vmstate.State, f
 		}
 		if want {
 			st.True++
+			st.class(e.Cls + "true")
 		} else {
 			st.False++
+			st.class(e.Cls + "false")
 		}
 		if (o.Res == 1) != want {
 			out = append(out, mismatch{What: "result-differs", Frame: e.Frame, Query: e.Q.Label, Slot: slot, Got: resName(o.Res), Want: fmt.Sprint(want), Where: desc})
